@@ -39,6 +39,8 @@ pub mod cfg {
     pub const CODE_SYNCS_BEFORE_DROP: bool = true;
     /// WalActor (Always mode): true = a SyncTick calls rotator.sync(); false = SyncTick is a no-op
     pub const CODE_TICK_SYNCS: bool = false;
+    /// WalRotator::new + rotate: true = a restarted rotator re-creates the highest existing file name
+    pub const CODE_RESTART_REUSES_SEQ: bool = false;
     /// WAL on-disk format: 2 = entry checksum over len|timestamp|data, empty entry rejected
     pub const CODE_WAL_FORMAT: u8 = 2;
     /// CrashSimulator::crashed_nodes / recovering_nodes: true = sorted by node id (3012c3c),
